@@ -173,6 +173,11 @@ def main(tier):
         cid = "p%d" % n
         cases.append(rel.case(cid, text))
         meta[cid] = (m, text)
+        # the same declarations written as names of types (directly, through an alias, with an inherited property)
+        t2 = apidoc.render(d, apidoc.Style(pathref=1.0, rnd=random.Random(n)))[0]
+        if t2 != text:
+            cases.append(rel.case("q%d" % n, t2))
+            meta["q%d" % n] = (m, t2)
         if n % (2 if thorough else 6) == 0:
             for nm, rd in reject_variants(d):
                 rid = "x%d_%s" % (n, nm)
